@@ -42,6 +42,26 @@ Theorem C12_merge_order_independent : forall a b pr pr' ps ps' id,
   items (merge a b pr ps) = items (merge a b pr' ps').
 Proof. exact merge_order_independent. Qed.
 
+(* ... stated on B itself: when [pr]/[ps] are B's region and style maps in whatever order the runtime ranges over them
+   (maps keyed by the definitions' identifiers), the result's definitions are A's, plus B's for the identifiers A lacks;
+   B is an argument of the function and cannot change; nil receiver maps are allocated *)
+Theorem C12_merge_union : forall a b pr ps,
+  keyed g_id (map_or_empty (regions b)) -> keyed s_id (map_or_empty (styles b)) ->
+  Permutation (map snd (map_or_empty (regions b))) pr -> Permutation (map snd (map_or_empty (styles b))) ps ->
+  forall id,
+    lookup_region (merge a b pr ps) id = match lookup_region a id with Some r => Some r | None => lookup_region b id end /\
+    lookup_style (merge a b pr ps) id = match lookup_style a id with Some s => Some s | None => lookup_style b id end.
+Proof. exact merge_union. Qed.
+Theorem C12_merge_allocates_maps : forall a b pr ps, regions (merge a b pr ps) <> None /\ styles (merge a b pr ps) <> None.
+Proof. exact merge_maps_allocated. Qed.
+(* non-vacuity: nil receiver region map, an identifier (7) defined on both sides - A's definition wins -, equal starts
+   across A and B - A's cue first *)
+Example C12_merge_example :
+  let m := merge ex_merge_a ex_merge_b [mkRegion 4 None false] [mkStyle 7 None false; mkStyle 8 (Some 7%N) false] in
+  map uid (items m) = [4; 1; 3; 2]%N /\ lookup_style m 7 = Some (mkStyle 7 None true) /\
+  lookup_style m 8 = Some (mkStyle 8 (Some 7%N) false) /\ lookup_region m 4 = Some (mkRegion 4 None false).
+Proof. exact ex_merge. Qed.
+
 (* non-vacuity: a concrete unordered list with equal starts *)
 Example C12_example :
   let mk u s := mkItem u s (s + 1) [] None None false in
@@ -58,3 +78,5 @@ Print Assumptions C12_merge_items_stable.
 Print Assumptions C12_merge_regions.
 Print Assumptions C12_merge_styles.
 Print Assumptions C12_merge_order_independent.
+Print Assumptions C12_merge_union.
+Print Assumptions C12_merge_allocates_maps.
